@@ -220,11 +220,11 @@ package ast
 //@   requires self != nil && self.t & _V_LAZY == 0 && self.p != nil && lnWF(cast(*linkedNodes, self.p)) && cast(*linkedNodes, self.p).size <= 70368744177664
 //@   ensures i < 0 ==> result == nil
 //@   loop 0: invariant 0 <= j && j <= l && l == cast(*linkedNodes, self.p).size && lnWF(cast(*linkedNodes, self.p))
-//@   loop 0: invariant i0 < 0 ==> i < 0
+//@   loop 0: invariant 0 <= i && i <= i0
 //@   loop 0: decreases l - j
 //@ func (*Node).pairAt props C14,C15
 //@   requires self != nil && self.t & _V_LAZY == 0 && self.p != nil && lpWF(cast(*linkedPairs, self.p)) && cast(*linkedPairs, self.p).size <= 70368744177664
 //@   ensures i < 0 ==> result == nil
 //@   loop 0: invariant 0 <= j && j <= l && l == cast(*linkedPairs, self.p).size && lpWF(cast(*linkedPairs, self.p))
-//@   loop 0: invariant i0 < 0 ==> i < 0
+//@   loop 0: invariant 0 <= i && i <= i0
 //@   loop 0: decreases l - j
